@@ -91,11 +91,40 @@ def getters(facts, crates=None):
     return out
 
 
+def promoted_ranges(facts):
+    """promoted constants that are integer ranges: `&(0..=6)` -> {promoted path: (start, end, inclusive)}"""
+    from .mir import op_const
+    out = {}
+    for path, m in facts._index["meta"].items():
+        if m[3] != "promoted":
+            continue
+        b = facts.body(path, _fuzzy=False)
+        if b is None or len(b.blocks) > 3 or not b.locals[0][0].startswith("&core::ops::range::Range"):
+            continue
+        for blk in b.blocks:
+            t = blk.term
+            if t.kind == "call" and t.callee.endswith("RangeInclusive::<Idx>::new") and len(t.args) == 2 and t.args[0][0] == "k" and t.args[1][0] == "k":
+                a, c = op_const(t.args[0]), op_const(t.args[1])
+                if a and c and a[1] is not None and c[1] is not None and ty_range(a[0]) is not None:
+                    out[path] = (a[1], c[1], True, a[0])
+        for st in b.blocks[0].stmts:
+            if st[0] == "A" and st[2][0] == "agg" and st[2][1][0] == "adt" and st[2][1][1] in ("core::ops::range::Range", "core::ops::range::RangeInclusive"):
+                ops = st[2][2]
+                if len(ops) >= 2 and ops[0][0] == "k" and ops[1][0] == "k":
+                    a, c = op_const(ops[0]), op_const(ops[1])
+                    if a and c and a[1] is not None and c[1] is not None and ty_range(a[0]) is not None:
+                        out[path] = (a[1], c[1], st[2][1][1].endswith("Inclusive"), a[0])
+    return out
+
+
 def register_getters(facts, crates=None):
     if getattr(facts, "_getters", None) is None:
         facts._getters = getters(facts, crates)
+        facts._promoted_ranges = promoted_ranges(facts)
     intervals.GETTERS.clear()
     intervals.GETTERS.update(facts._getters)
+    intervals.PROMOTED_RANGES.clear()
+    intervals.PROMOTED_RANGES.update(facts._promoted_ranges)
 
 
 def register(facts, crates=None):
